@@ -105,6 +105,7 @@ type DOp struct {
 	Lits Bytes    `json:"lits,omitempty"`
 	Len  int      `json:"len,omitempty"`
 	W    *WEvent  `json:"w,omitempty"` // writeto on a DecoderBuffer: behaviour of the writer
+	Cfg  *DCfg    `json:"cfg,omitempty"` // reinit: Init is called again with this configuration (nil: the one of the case)
 }
 
 // DecCase is a decoder history: vehicle "dbuf" (lz.DecoderBuffer used
@@ -384,7 +385,7 @@ func (x *decExec) apply(op DOp) {
 	case "reset":
 		x.doReset()
 	case "reinit":
-		x.doReinit()
+		x.doReinit(op)
 	case "byteatend":
 		x.doByteAtEnd(op)
 	default:
@@ -810,6 +811,11 @@ func (x *decExec) doFlush() {
 	x.lastErr, x.haveErr = err, true
 	switch err {
 	case nil:
+		if len(x.wr.got) != len(x.all) {
+			// x.all follows the counts the calls reported: their sum is not
+			// the number of bytes that went to the output stream
+			x.report("C17", "after a successful Flush the writer holds %d bytes, but the calls since Init/Reset reported %d bytes as written", len(x.wr.got), len(x.all))
+		}
 		if !bytesEqual(x.wr.got, x.all) {
 			x.report("C04", "after a successful Flush the writer holds %d bytes, the reference expansion has %d", len(x.wr.got), len(x.all))
 			x.report("C18", "after a successful Flush the writer holds %d bytes, the reference expansion has %d", len(x.wr.got), len(x.all))
@@ -851,24 +857,45 @@ func (x *decExec) doReset() {
 	x.retriesPending = nil
 }
 
-// doReinit calls Init again on a used DecoderBuffer: like Reset, with the
-// configuration given anew.
-func (x *decExec) doReinit() {
+// doReinit calls Init again on a used DecoderBuffer or Decoder: like Reset,
+// with a configuration given anew (the same one or another accepted one).
+func (x *decExec) doReinit(op DOp) {
+	cfg := x.c.Cfg
+	if op.Cfg != nil {
+		cfg = *op.Cfg
+	}
+	lcfg := lz.DecoderConfig{WindowSize: cfg.WindowSize, BufferSize: cfg.BufferSize}
 	if x.buf == nil {
+		old := x.wr
+		nw := &scriptWriter{events: old.events, lens: &x.callLens}
+		x.faultsTotal += old.faults
+		var err error
+		if x.guard("Decoder.Init", func() { err = x.dec.Init(nw, lcfg) }) {
+			return
+		}
+		if err != nil {
+			// a configuration Init refuses leaves the decoder as it was
+			return
+		}
+		x.wr = nw
+		x.cc = cfg.completed()
+		x.all = x.all[:0]
+		x.retriesPending = nil
 		return
 	}
 	st := x.before()
 	var err error
-	if x.guard("Init", func() {
-		err = x.buf.Init(lz.DecoderConfig{WindowSize: x.c.Cfg.WindowSize, BufferSize: x.c.Cfg.BufferSize})
-	}) {
+	if x.guard("Init", func() { err = x.buf.Init(lcfg) }) {
 		return
 	}
 	if err != nil {
-		x.report("C04", "Init with the configuration accepted before returned %v", err)
-		x.dead = true
+		if op.Cfg == nil {
+			x.report("C04", "Init with the configuration accepted before returned %v", err)
+			x.dead = true
+		}
 		return
 	}
+	x.cc = cfg.completed()
 	x.all = x.all[:0]
 	x.cursor = 0
 	x.relations("Reset", st, false)
@@ -906,6 +933,9 @@ func (x *decExec) finish() {
 	x.drain()
 	if x.dead {
 		return
+	}
+	if len(x.wr.got) != len(x.all) {
+		x.report("C17", "after the final successful Flush the writer holds %d bytes, but the calls since Init/Reset reported %d bytes as written", len(x.wr.got), len(x.all))
 	}
 	if !bytesEqual(x.wr.got, x.all) {
 		x.report("C18", "after the final successful Flush the writer holds %d bytes, the reference expansion has %d", len(x.wr.got), len(x.all))
